@@ -29,10 +29,10 @@ def _ch(c):
 
 
 @functools.lru_cache(None)
-def category_ranges(cat):
+def category_ranges(cat, ascii_only=False):
     """code-point ranges of a category, obtained from the real `re` engine"""
     pat = {'digit': r'\d', 'space': r'\s', 'word': r'\w'}[cat]
-    p = re.compile(pat)
+    p = re.compile(pat, re.ASCII if ascii_only else 0)
     out = []
     start = None
     for c in range(0, MAXCHAR + 2):
@@ -72,7 +72,7 @@ def _concat(rs):
 EPS = lambda: z3.Re(z3.StringVal(''))
 
 
-def set_ranges(items):
+def set_ranges(items, flags=0):
     """IN node -> list of (lo,hi) ranges, negation flag"""
     neg = False
     rs = []
@@ -85,11 +85,11 @@ def set_ranges(items):
             rs.append(av)
         elif op is sre_c.CATEGORY:
             if av is sre_c.CATEGORY_DIGIT:
-                rs.extend(category_ranges('digit'))
+                rs.extend(category_ranges('digit', bool(flags & re.ASCII)))
             elif av is sre_c.CATEGORY_SPACE:
-                rs.extend(category_ranges('space'))
+                rs.extend(category_ranges('space', bool(flags & re.ASCII)))
             elif av is sre_c.CATEGORY_WORD:
-                rs.extend(category_ranges('word'))
+                rs.extend(category_ranges('word', bool(flags & re.ASCII)))
             else:
                 raise OutOfSubset('regex category %s' % av)
         else:
@@ -128,7 +128,7 @@ def tr(op, av, head, tail, flags):
     if op is sre_c.ANY:
         return _union(_range(a, b) for a, b in _negate([(10, 10)]))
     if op is sre_c.IN:
-        rs, neg = set_ranges(av)
+        rs, neg = set_ranges(av, flags)
         if neg:
             rs = _negate(rs)
         return _union(_range(a, b) for a, b in rs)
@@ -167,7 +167,7 @@ def tr(op, av, head, tail, flags):
 def parse(pattern):
     if isinstance(pattern, str):
         return sre_parse.parse(pattern, 0), 0
-    if pattern.flags & (re.IGNORECASE | re.MULTILINE | re.DOTALL | re.VERBOSE | re.ASCII | re.LOCALE):
+    if pattern.flags & (re.IGNORECASE | re.MULTILINE | re.DOTALL | re.VERBOSE | re.LOCALE):
         raise OutOfSubset('regex flags %r' % pattern.flags)
     return sre_parse.parse(pattern.pattern, pattern.flags & ~re.UNICODE), pattern.flags & ~re.UNICODE
 
@@ -178,7 +178,7 @@ _cache = {}
 def to_z3(pattern, mode='match'):
     """mode 'match': language of s with P.match(s) != None, *assuming* the pattern ends in `$` or mode 'prefix'
     (then .Sigma* is appended)."""
-    key = (pattern if isinstance(pattern, str) else pattern.pattern, mode)
+    key = (pattern if isinstance(pattern, str) else (pattern.pattern, pattern.flags), mode)
     if key in _cache:
         return _cache[key]
     tree, flags = parse(pattern)
